@@ -225,12 +225,13 @@ def parse_events(s):
     return [e.split(" ") for e in s.split(";") if e]
 
 
-def log_oracle(events, terminated):
+def log_oracle(events, terminated, hung=False):
     """The property itself, read off the implementation's event log (no Lean model involved):
     one publish per promise; the promise mutex alternates lock/unlock by one goroutine; a continuation
     is only registered on an unpublished promise (else the wake-up is lost); every registration is
     answered by exactly one re-enqueue and one dequeue; a task never runs on two workers at once."""
     pubs, holder, regs, enqcs, deqs, running = {}, {}, {}, {}, {}, {}
+    settled_done = set()   # promises whose settler has left Resolve/Reject
     cur = {}   # actor -> task it is running
     for i, e in enumerate(events):
         k, a = e[0], e[1]
@@ -246,6 +247,8 @@ def log_oracle(events, terminated):
                 return "mutex of promise %s acquired by %s while held by %s (event %d)" % (x, a, holder[x], i)
             holder[x] = a
         elif k in ("awr", "unl", "resu"):
+            if k == "resu":
+                settled_done.add(x)
             if holder.get(x) != a:
                 return "mutex of promise %s released by %s but held by %s (event %d)" % (x, a, holder.get(x), i)
             del holder[x]
@@ -267,6 +270,13 @@ def log_oracle(events, terminated):
             enqcs[(x, t)] = enqcs.get((x, t), 0) + 1
             if enqcs[(x, t)] > regs.get((x, t), 0):
                 return "task %s re-enqueued by promise %s more often than it registered (event %d)" % (t, x, i)
+    if hung and not terminated:
+        # nothing moves any more: a continuation registered on a promise whose settler has finished its
+        # enqueue loop and left must have been re-enqueued (a settler still inside the loop is D9, not this)
+        for (p, t), n in regs.items():
+            if p in settled_done and enqcs.get((p, t), 0) != n:
+                return "LOST WAKE-UP: task %s registered %d time(s) on promise %s, which was settled and released, " \
+                       "but was re-enqueued %d time(s); the run hangs" % (t, n, p, enqcs.get((p, t), 0))
     if terminated:
         for (p, t), n in regs.items():
             if pubs.get(p) and enqcs.get((p, t), 0) != n:
@@ -322,7 +332,7 @@ def judge(ctx, n, q, req, ans, model_ans, stats):
     inp = {"pool": n, "queue": q, "seed": req["seed"], "tasks": ntasks, "program": req["src"], "ir": prog}
     ctx.stat("outcome:" + str(outcome))
     ctx.stat("cfg:%dx%d:%s" % (n, q, outcome))
-    pf = log_oracle(events, terminated)
+    pf = log_oracle(events, terminated, hung=(outcome == "timeout" and bool(ans.get("hang"))))
     if pf:
         return "property-fails", inp, pf + "; outcome=" + str(outcome), False
     if outcome in ("panic", "fatal"):
